@@ -573,7 +573,8 @@ func (d *drv) documentStream() ([]*rdfCase, error) {
 			d.rep.Fail("c12-merklizejsonld-memory", fmt.Sprintf("MerklizeJSONLD allocated %d bytes on a %d-byte document (%s)", o.Alloc, len(c.doc), c.why), input)
 		}
 		// model side: entries_from_rdf on the dataset json-gold produces, then the tail
-		if len(c.doc) > 2500 || jsonGoldPanic || o.Class == "hang" {
+		if len(c.doc) > 2500 || jsonGoldPanic || o.Class == "hang" || strings.HasPrefix(c.why, "huge-") {
+			// (10^999999 is not something vm_compute evaluates: implementation side only)
 			continue
 		}
 		var ds *ld.RDFDataset
@@ -584,6 +585,13 @@ func (d *drv) documentStream() ([]*rdfCase, error) {
 		})
 		if no.Class != "ok" || ds == nil {
 			continue
+		}
+		nq := 0
+		for _, qs := range ds.Graphs {
+			nq += len(qs)
+		}
+		if nq > 40 {
+			continue // the in-Coq evaluation of the RDF model is quadratic in the number of quads
 		}
 		for _, s := range mzrun.DoubleLexicals(ds) {
 			d.fr.AddStr(s)
